@@ -7,6 +7,7 @@
 (* replays every one of them in the real code with a scripted clock, and each     *)
 (* replayed fit must be a behaviour of reference FPS (trace/TraceFPS.tla).        *)
 EXTENDS Integers, Sequences, TLC, Json
+CONSTANT AcceptZero        \* validation of an explicit switching point: TRUE: 0 <= f <= 1 (current tree), FALSE: 0 < f <= 1 (pinned)
 VARIABLES lo, hi, bits         \* bracket in units of 1/128, outcomes so far
 vars == <<lo, hi, bits>>
 Init == lo = 0 /\ hi = 128 /\ bits = <<>>
@@ -17,5 +18,9 @@ Next == Faster \/ Slower
 Spec == Init /\ [][Next]_vars
 Exact == (lo + hi) % 2 = 0 \/ ~Continue      \* midpoints stay dyadic: results are k/128
 ResultInRange == ~Continue => (lo \in 0..127 /\ hi = lo + 1 /\ Len(bits) = 7)
+\* fit writes the result into the hyper-parameter; a second fit validates it like an explicit value:
+\* every calibration outcome must be a valid parameter, otherwise refitting depends on wall-clock timing
+ValidParam(k) == (IF AcceptZero THEN k >= 0 ELSE k > 0) /\ k <= 128
+RefitAccepted == ~Continue => ValidParam(lo)
 Emit == ~Continue => PrintT(ToJson([k |-> "B", bits |-> bits, result |-> lo]))
 ===========================================================================
